@@ -236,6 +236,70 @@ theorem step_reconn_frame {s s' : CS} {e : Ev} (h : step s e = some s') :
   obtain ⟨t, ht, rfl⟩ := step_eq_some.1 h
   exact stepCore_reconn_frame (t := t) ht
 
+/-- from a state in which the reconnect task has not waited, a `reconnCall` at position `m` of an accepted run is preceded
+by a `reconnSleep` of at least 500 ms -/
+theorem sleep_before_call {es : List Ev} {s s' : CS} {m : Nat} (hs : s.reconnSlept = false)
+    (h : runTrace s es = some s') (hm : es[m]? = some .reconnCall) :
+    ∃ k ms, k < m ∧ es[k]? = some (.reconnSleep ms) ∧ 500 ≤ ms := by
+  induction es generalizing s m with
+  | nil => simp at hm
+  | cons e es ih =>
+    obtain ⟨t, h1, h2⟩ := runTrace_cons.1 h
+    cases m with
+    | zero =>
+      simp only [List.getElem?_cons_zero, Option.some.injEq] at hm
+      subst hm
+      rcases step_reconn_frame h1 with ⟨h3, -⟩ | ⟨_, h3, -⟩ | ⟨h3, -⟩ | ⟨-, -, h3, -⟩ | ⟨-, -, -, h3, -⟩
+      · cases h3
+      · cases h3
+      · cases h3
+      · rw [hs] at h3; cases h3
+      · exact absurd rfl h3
+    | succ m =>
+      rw [List.getElem?_cons_succ] at hm
+      cases hsl : t.reconnSlept with
+      | false =>
+        obtain ⟨k, ms, hk, he, hms⟩ := ih hsl h2 hm
+        exact ⟨k + 1, ms, Nat.succ_lt_succ hk, by rw [List.getElem?_cons_succ]; exact he, hms⟩
+      | true =>
+        rcases step_reconn_frame h1 with ⟨-, -, -, h3⟩ | ⟨ms, rfl, h3, -⟩ | ⟨-, -, -, h3⟩ | ⟨-, -, -, -, h3⟩ |
+            ⟨-, -, -, -, -, h3⟩
+        · rw [hsl] at h3; cases h3
+        · exact ⟨0, ms, Nat.succ_pos _, rfl, h3⟩
+        · rw [hsl, hs] at h3; cases h3
+        · rw [hsl] at h3; cases h3
+        · rw [hsl, hs] at h3; cases h3
+
+/-- between two `reconnCall`s of an accepted run lies a `reconnSleep` of at least 500 ms -/
+theorem sleep_between_calls {es : List Ev} {s s' : CS} {i j : Nat} (h : runTrace s es = some s') (hij : i < j)
+    (hi : es[i]? = some .reconnCall) (hj : es[j]? = some .reconnCall) :
+    ∃ k ms, i < k ∧ k < j ∧ es[k]? = some (.reconnSleep ms) ∧ 500 ≤ ms := by
+  induction es generalizing s i j with
+  | nil => simp at hi
+  | cons e es ih =>
+    obtain ⟨t, h1, h2⟩ := runTrace_cons.1 h
+    cases j with
+    | zero => omega
+    | succ j =>
+      rw [List.getElem?_cons_succ] at hj
+      cases i with
+      | zero =>
+        simp only [List.getElem?_cons_zero, Option.some.injEq] at hi
+        subst hi
+        have hsl : t.reconnSlept = false := by
+          rcases step_reconn_frame h1 with ⟨h3, -⟩ | ⟨_, h3, -⟩ | ⟨h3, -⟩ | ⟨-, -, -, -, h3⟩ | ⟨-, -, -, h3, -⟩
+          · cases h3
+          · cases h3
+          · cases h3
+          · exact h3
+          · exact absurd rfl h3
+        obtain ⟨k, ms, hk, he, hms⟩ := sleep_before_call hsl h2 hj
+        exact ⟨k + 1, ms, Nat.succ_pos _, Nat.succ_lt_succ hk, by rw [List.getElem?_cons_succ]; exact he, hms⟩
+      | succ i =>
+        rw [List.getElem?_cons_succ] at hi
+        obtain ⟨k, ms, hk1, hk2, he, hms⟩ := ih h2 (Nat.lt_of_succ_lt_succ hij) hi hj
+        exact ⟨k + 1, ms, Nat.succ_lt_succ hk1, Nat.succ_lt_succ hk2, by rw [List.getElem?_cons_succ]; exact he, hms⟩
+
 theorem step_reconn_le {s s' : CS} {e : Ev} (hs : s.reconn ≤ 1) (h : step s e = some s') : s'.reconn ≤ 1 := by
   rcases step_reconn_frame h with ⟨-, -, h1, -⟩ | ⟨_, -, -, -, -, h1, -⟩ | ⟨-, -, h1, -⟩ | ⟨-, -, -, h1, -⟩ | ⟨-, -, -, -, h1, -⟩ <;>
     omega
